@@ -142,6 +142,20 @@ def directed_histories(rng, thorough):
                       {"ev": "hreq", "id": "t4", "seq": "t4"}, {"ev": "adv", "d": 30}, {"ev": "hres", "id": "t4", "seq": "t4", "status": 200},
                       {"ev": "adv", "d": 6}, {"ev": "hreq", "id": "t5", "seq": "t1"}, {"ev": "hres", "id": "t5", "seq": "t1", "status": 200}]
                 hs_f.append(h)
+    # (g) scale: a burst of very many fresh transactions (size limits of the anchors map / the vacuum's backlog) between the
+    #     request and the response of tracked transactions, with a reload inside
+    hs_g = []
+    for n in ((66000, 70000, 100000) if thorough else (rng.choice([66000, 70000, 100000]),)):
+        for pre in (0, 20):
+            h = [{"ev": "reset", "label": "A"}, {"ev": "lookup", "txn": "t1"}]
+            if pre:
+                h.append({"ev": "adv", "d": pre})
+            h += [{"ev": "burst", "n": n}, {"ev": "lookup", "txn": "t2"}, {"ev": "lookup", "txn": "t3"}, upd("apply", "B"),
+                  {"ev": "lookup", "txn": "t2"}, {"ev": "lookup", "txn": "t1"}, {"ev": "lookup", "txn": "t4"}, {"ev": "burst", "n": 2000},
+                  {"ev": "adv", "d": 29}, {"ev": "lookup", "txn": "t3"}, {"ev": "lookup", "txn": "t4"}, {"ev": "adv", "d": 7},
+                  {"ev": "lookup", "txn": "t5"}, upd("apply", "C"), {"ev": "lookup", "txn": "t5"}]
+            hs_g.append(h)
+    hs = hs + hs_g
     if thorough:
         return hs + hs_a + hs_d + hs_e + hs_f
     return hs + rng.sample(hs_a, 20) + rng.sample(hs_d, 8) + rng.sample(hs_e, 20) + rng.sample(hs_f, 12)
@@ -268,7 +282,7 @@ def execute(ctx, binary, scripts, tag):
 
 def has_gap(h):
     """held calls, overlapping updates or late vacuum wake-ups: outside what the model conformance spec PinITrace replays"""
-    return any("cs" in e or "gap" in e for e in h) or any(h[0].get("drift", []))
+    return any("cs" in e or "gap" in e or e.get("ev") == "burst" for e in h) or any(h[0].get("drift", []))
 
 
 def judge(ctx, binary, traces, tag, seen, scripts):
